@@ -19,6 +19,13 @@
 //	no match                no terminal verdict, no RETURN, the next rule (a sentinel appended
 //	                        by the check) is reached, verdict marks unchanged, no LOG
 //
+// The SAME proto.Rule object is rendered for both IP versions (order chosen by the PRNG), by both
+// renderers, and then all over again (re-render), as Felix does with the rule of one
+// ActivePolicyUpdate; every render is judged against the reference evaluated on a pristine deep
+// copy taken before the first render, and a render that changes its input rule is reported under
+// the key render-mutates-input-rule (rendering is a pure function of the rule in the property's
+// model).  15% of the rules mix IPv4 and IPv6 CIDRs without an ip_version.
+//
 // A rendered rule that the real front end would refuse to load (nfsim "rejected": more than 15
 // multiport slots, wrong address family, icmp match without -p icmp ...) is a violation: the
 // rule can then never take its action.
@@ -284,12 +291,17 @@ func firstLine(s string) string {
 
 func run(c *harness.Case) {
 	c.Count(okCounter, 1)
-	g := rulegen.New(c.R, rulegen.Config{})
+	g := rulegen.New(c.R, rulegen.Config{MixedFamilyPct: 15})
 	aim := uint8(4)
 	if c.R.Intn(2) == 0 {
 		aim = 6
 	}
-	rule := g.Rule(aim)
+	// live is the ONE rule object handed to every render (both renderers, both IP versions,
+	// twice), as Felix hands the same proto.Rule of an ActivePolicyUpdate to its IPv4 and IPv6
+	// policy managers and re-renders it later.  rule is a pristine deep copy taken before the
+	// first render: the reference, the packets and every witness use it.
+	live := g.Rule(aim)
+	rule := googleproto.Clone(live).(*proto.Rule)
 	setMembers := g.SetMembers()
 	sets := g.IPSets()
 
@@ -344,179 +356,192 @@ func run(c *harness.Case) {
 	}
 
 	sawMatch, sawNonMatch := false, false
-	for _, ipv := range []uint8{aim, 10 - aim} {
-		n := c.Pick(40, 48)
-		if ipv != aim {
-			n = 8
-		}
-		pkts := g.Packets(rule, ipv, n)
-		for _, flavor := range []nfsim.Flavor{nfsim.Iptables, nfsim.NFT} {
-			fl := flavor.String()
-			renderer := rules.NewRenderer(cfg, flavor == nfsim.NFT)
-			rendered := renderer.ProtoRuleToIptablesRules(rule, ipv, owner, dir, idx, id, tier, untracked)
-			c.Count("renders_"+fl, 1)
-			c.Count("rules_rendered_"+fl, int64(len(rendered)))
-			if len(rendered) == 0 {
-				c.Count("renders_empty_"+fl, 1)
+	pktsBy := map[uint8][]refpolicy.Packet{aim: g.Packets(rule, aim, c.Pick(40, 48)), 10 - aim: g.Packets(rule, 10-aim, 8)}
+	order := []uint8{aim, 10 - aim}
+	if c.R.Intn(2) == 0 {
+		order = []uint8{10 - aim, aim}
+	}
+	mutationReported := false
+	for renderPass := 0; renderPass < 2; renderPass++ {
+		for _, ipv := range order {
+			pkts := pktsBy[ipv]
+			if renderPass == 1 && len(pkts) > 16 {
+				pkts = pkts[:16] // the re-render is judged on a subset
 			}
-			if len(rendered) > 3 {
-				c.Count("renders_with_match_blocks_"+fl, 1)
-			}
-			rs := nfsim.NewRuleset(flavor, ipv)
-			ipc := cfg.IPSetConfigV4
-			if ipv == 6 {
-				ipc = cfg.IPSetConfigV6
-			}
-			for sid, s := range sets {
-				name := ipc.NameForMainIPSet(sid)
-				if flavor == nfsim.NFT {
-					name = nftables.LegalizeSetName(name)
+			for _, flavor := range []nfsim.Flavor{nfsim.Iptables, nfsim.NFT} {
+				fl := flavor.String()
+				renderer := rules.NewRenderer(cfg, flavor == nfsim.NFT)
+				rendered := renderer.ProtoRuleToIptablesRules(live, ipv, owner, dir, idx, id, tier, untracked)
+				if !mutationReported && !googleproto.Equal(live, rule) {
+					// rendering is a pure function of the rule in the property's model
+					mutationReported = true
+					c.Violationf("render-mutates-input-rule", detail(map[string]any{"renderer": fl, "ipVersion": ipv, "pass": renderPass, "rule_after_render": live.String()}),
+						"%s v%d (render pass %d): ProtoRuleToIptablesRules changed the proto.Rule it was given: before %s, after %s", fl, ipv, renderPass, rule, live)
 				}
-				rs.AddSet(name, s, g.IsIPPortSet(sid))
-			}
-			chain := &generictables.Chain{Name: "cali-pol", Rules: append(append([]generictables.Rule(nil), rendered...),
-				// sentinel: "the next rule"
-				generictables.Rule{Match: renderer.(*rules.DefaultRuleRenderer).NewMatch(), Action: renderer.(*rules.DefaultRuleRenderer).SetMark(sentinel)})}
-			_ = rs.AddChain(chain)
-			if err := rs.Err(); err != nil {
-				if nfsim.IsRejected(err) {
-					class := "unknown"
-					var ne *nfsim.Error
-					if errors.As(err, &ne) && ne.Class != "" {
-						class = ne.Class
+				c.Count("renders_"+fl, 1)
+				c.Count("rules_rendered_"+fl, int64(len(rendered)))
+				if len(rendered) == 0 {
+					c.Count("renders_empty_"+fl, 1)
+				}
+				if len(rendered) > 3 {
+					c.Count("renders_with_match_blocks_"+fl, 1)
+				}
+				rs := nfsim.NewRuleset(flavor, ipv)
+				ipc := cfg.IPSetConfigV4
+				if ipv == 6 {
+					ipc = cfg.IPSetConfigV6
+				}
+				for sid, s := range sets {
+					name := ipc.NameForMainIPSet(sid)
+					if flavor == nfsim.NFT {
+						name = nftables.LegalizeSetName(name)
 					}
-					if flavor == nfsim.Iptables && class == "multiple-proto-flags" && rule.Protocol != nil && rule.NotProtocol != nil {
-						// KNOWN FINDING (2): a rule with both protocol and notProtocol renders
-						// `-p X ! -p Y`, which iptables-restore refuses.
-						c.Count("known_protocol_and_notprotocol", 1)
-						if emitKnown(keyProtoAndNotProto) {
-							c.Violationf(keyProtoAndNotProto, detail(map[string]any{"ipVersion": ipv, "error": err.Error(), "rendered": rs.Dump()}),
-								"iptables v%d: rule with protocol and notProtocol renders two -p flags, which iptables-restore refuses: %v", ipv, err)
+					rs.AddSet(name, s, g.IsIPPortSet(sid))
+				}
+				chain := &generictables.Chain{Name: "cali-pol", Rules: append(append([]generictables.Rule(nil), rendered...),
+					// sentinel: "the next rule"
+					generictables.Rule{Match: renderer.(*rules.DefaultRuleRenderer).NewMatch(), Action: renderer.(*rules.DefaultRuleRenderer).SetMark(sentinel)})}
+				_ = rs.AddChain(chain)
+				if err := rs.Err(); err != nil {
+					if nfsim.IsRejected(err) {
+						class := "unknown"
+						var ne *nfsim.Error
+						if errors.As(err, &ne) && ne.Class != "" {
+							class = ne.Class
 						}
+						if flavor == nfsim.Iptables && class == "multiple-proto-flags" && rule.Protocol != nil && rule.NotProtocol != nil {
+							// KNOWN FINDING (2): a rule with both protocol and notProtocol renders
+							// `-p X ! -p Y`, which iptables-restore refuses.
+							c.Count("known_protocol_and_notprotocol", 1)
+							if emitKnown(keyProtoAndNotProto) {
+								c.Violationf(keyProtoAndNotProto, detail(map[string]any{"ipVersion": ipv, "error": err.Error(), "rendered": rs.Dump()}),
+									"iptables v%d: rule with protocol and notProtocol renders two -p flags, which iptables-restore refuses: %v", ipv, err)
+							}
+							continue
+						}
+						c.Violationf("rejected:"+class+":"+fl, detail(map[string]any{"ipVersion": ipv, "error": err.Error(), "rendered": rs.Dump()}),
+							"%s v%d: a rendered rule would be refused at load time: %v", fl, ipv, err)
 						continue
 					}
-					c.Violationf("rejected:"+class+":"+fl, detail(map[string]any{"ipVersion": ipv, "error": err.Error(), "rendered": rs.Dump()}),
-						"%s v%d: a rendered rule would be refused at load time: %v", fl, ipv, err)
-					continue
+					harnessError(c, err)
+					return
 				}
-				harnessError(c, err)
-				return
-			}
-			if flavor == nfsim.NFT && c.Index%20 == 0 && len(rendered) > 0 {
-				nftFrontEndCalibration(c, ipv, rs.ChainTexts("cali-pol"), sets, func(id string) string { return nftables.LegalizeSetName(ipc.NameForMainIPSet(id)) }, g.IsIPPortSet)
-			}
-			for _, p := range pkts {
-				pkt := &nfsim.Packet{Packet: p, CTState: nfsim.CTNew, InIface: "cali1234", OutIface: "eth0"}
-				pkt.Mark = c.R.Uint32() &^ (verdictBits | sentinel)
-				res, err := rs.Run("cali-pol", pkt)
-				if err != nil {
-					if nfsim.IsUnparsed(err) {
-						harnessError(c, err)
-						return
-					}
-					c.Violationf("walk-error:"+fl, detail(map[string]any{"ipVersion": ipv, "error": err.Error(), "rendered": rs.Dump()}), "%s v%d: %v", fl, ipv, err)
-					break
+				if flavor == nfsim.NFT && c.Index%20 == 0 && len(rendered) > 0 {
+					nftFrontEndCalibration(c, ipv, rs.ChainTexts("cali-pol"), sets, func(id string) string { return nftables.LegalizeSetName(ipc.NameForMainIPSet(id)) }, g.IsIPPortSet)
 				}
-				want := refpolicy.MatchRule(rule, &p, sets)
-				c.Count("packets_"+fl, 1)
-				if want {
-					c.Count("matches_"+fl, 1)
-					c.Count("matches_"+act.String(), 1)
-					if ipv == aim {
-						sawMatch = true
-					}
-				} else {
-					c.Count("nonmatches_"+fl, 1)
-					if ipv == aim {
-						sawNonMatch = true
-					}
-				}
-				got := (res.Mark & verdictBits)
-				fellToNext := res.Verdict == nfsim.FellThrough && !res.Returned && res.Mark&sentinel != 0
-				nLOG := 0
-				for _, l := range res.Logs {
-					if l.Kind == "LOG" {
-						nLOG++
-					}
-				}
-				bad := ""
-				switch {
-				case !want:
-					switch {
-					case res.Verdict != nfsim.FellThrough:
-						bad = "nomatch-terminal-verdict"
-					case res.Returned || res.Mark&sentinel == 0:
-						bad = "nomatch-returned"
-					case got != 0:
-						bad = "nomatch-verdict-mark-changed"
-					case nLOG != 0:
-						bad = "nomatch-logged"
-					}
-				case act == refpolicy.Allow:
-					switch {
-					case res.Verdict != nfsim.FellThrough:
-						bad = "allow-terminal-verdict"
-					case got != accept:
-						bad = "allow-wrong-mark"
-					case !res.Returned:
-						bad = "allow-no-return"
-					}
-				case act == refpolicy.Pass:
-					switch {
-					case res.Verdict != nfsim.FellThrough:
-						bad = "pass-terminal-verdict"
-					case got != pass:
-						bad = "pass-wrong-mark"
-					case !res.Returned:
-						bad = "pass-no-return"
-					}
-				case act == refpolicy.Deny:
-					wantV := nfsim.Drop
-					if reject {
-						wantV = nfsim.Reject
-					}
-					if res.Verdict != wantV {
-						bad = "deny-not-dropped"
-					}
-				case act == refpolicy.Log:
-					switch {
-					case nLOG == 0:
-						bad = "log-not-logged"
-					case !fellToNext:
-						bad = "log-did-not-continue"
-					case got != 0:
-						bad = "log-verdict-mark-changed"
-					}
-				}
-				if bad != "" && !want {
-					// KNOWN FINDING (1)?  Only the exact stale-scratch-bit situation qualifies.
-					nBlocks, stale := staleScratchBitPredictsMatch(rule, &p, sets)
-					if stale && nBlocks >= 3 && behavesAsMatch(act, res, got, accept, pass, reject, fellToNext, nLOG) {
-						c.Count("known_scratch_bit_overmatch", 1)
-						if emitKnown(keyScratchBit) {
-							c.Violationf(keyScratchBit, detail(map[string]any{
-								"ipVersion": ipv, "renderer": fl, "packet": p.String(), "positive_blocks": nBlocks, "symptom": bad,
-								"observed": map[string]any{"verdict": res.Verdict.String(), "returned": res.Returned, "mark": fmt.Sprintf("%#x", res.Mark), "trace": res.TraceString()},
-								"rendered": rs.Dump()}),
-								"%s v%d: rule %s has %d positive match blocks; the first two pass and a later one fails for packet %s, yet the rendered rules take the %s action (scratch bit not cleared between blocks)",
-								fl, ipv, rule.RuleId, nBlocks, p, act)
+				for _, p := range pkts {
+					pkt := &nfsim.Packet{Packet: p, CTState: nfsim.CTNew, InIface: "cali1234", OutIface: "eth0"}
+					pkt.Mark = c.R.Uint32() &^ (verdictBits | sentinel)
+					res, err := rs.Run("cali-pol", pkt)
+					if err != nil {
+						if nfsim.IsUnparsed(err) {
+							harnessError(c, err)
+							return
 						}
-						continue
+						c.Violationf("walk-error:"+fl, detail(map[string]any{"ipVersion": ipv, "error": err.Error(), "rendered": rs.Dump()}), "%s v%d: %v", fl, ipv, err)
+						break
+					}
+					want := refpolicy.MatchRule(rule, &p, sets)
+					c.Count("packets_"+fl, 1)
+					if want {
+						c.Count("matches_"+fl, 1)
+						c.Count("matches_"+act.String(), 1)
+						if ipv == aim {
+							sawMatch = true
+						}
+					} else {
+						c.Count("nonmatches_"+fl, 1)
+						if ipv == aim {
+							sawNonMatch = true
+						}
+					}
+					got := (res.Mark & verdictBits)
+					fellToNext := res.Verdict == nfsim.FellThrough && !res.Returned && res.Mark&sentinel != 0
+					nLOG := 0
+					for _, l := range res.Logs {
+						if l.Kind == "LOG" {
+							nLOG++
+						}
+					}
+					bad := ""
+					switch {
+					case !want:
+						switch {
+						case res.Verdict != nfsim.FellThrough:
+							bad = "nomatch-terminal-verdict"
+						case res.Returned || res.Mark&sentinel == 0:
+							bad = "nomatch-returned"
+						case got != 0:
+							bad = "nomatch-verdict-mark-changed"
+						case nLOG != 0:
+							bad = "nomatch-logged"
+						}
+					case act == refpolicy.Allow:
+						switch {
+						case res.Verdict != nfsim.FellThrough:
+							bad = "allow-terminal-verdict"
+						case got != accept:
+							bad = "allow-wrong-mark"
+						case !res.Returned:
+							bad = "allow-no-return"
+						}
+					case act == refpolicy.Pass:
+						switch {
+						case res.Verdict != nfsim.FellThrough:
+							bad = "pass-terminal-verdict"
+						case got != pass:
+							bad = "pass-wrong-mark"
+						case !res.Returned:
+							bad = "pass-no-return"
+						}
+					case act == refpolicy.Deny:
+						wantV := nfsim.Drop
+						if reject {
+							wantV = nfsim.Reject
+						}
+						if res.Verdict != wantV {
+							bad = "deny-not-dropped"
+						}
+					case act == refpolicy.Log:
+						switch {
+						case nLOG == 0:
+							bad = "log-not-logged"
+						case !fellToNext:
+							bad = "log-did-not-continue"
+						case got != 0:
+							bad = "log-verdict-mark-changed"
+						}
+					}
+					if bad != "" && !want {
+						// KNOWN FINDING (1)?  Only the exact stale-scratch-bit situation qualifies.
+						nBlocks, stale := staleScratchBitPredictsMatch(rule, &p, sets)
+						if stale && nBlocks >= 3 && behavesAsMatch(act, res, got, accept, pass, reject, fellToNext, nLOG) {
+							c.Count("known_scratch_bit_overmatch", 1)
+							if emitKnown(keyScratchBit) {
+								c.Violationf(keyScratchBit, detail(map[string]any{
+									"ipVersion": ipv, "renderer": fl, "packet": p.String(), "positive_blocks": nBlocks, "symptom": bad,
+									"observed": map[string]any{"verdict": res.Verdict.String(), "returned": res.Returned, "mark": fmt.Sprintf("%#x", res.Mark), "trace": res.TraceString()},
+									"rendered": rs.Dump()}),
+									"%s v%d: rule %s has %d positive match blocks; the first two pass and a later one fails for packet %s, yet the rendered rules take the %s action (scratch bit not cleared between blocks)",
+									fl, ipv, rule.RuleId, nBlocks, p, act)
+							}
+							continue
+						}
+					}
+					if bad != "" {
+						c.Violationf(bad+":"+fl, detail(map[string]any{
+							"ipVersion": ipv, "renderer": fl, "packet": p.String(), "initial_mark": fmt.Sprintf("%#x", pkt.Mark),
+							"reference_match": want, "action": act.String(),
+							"observed": map[string]any{"verdict": res.Verdict.String(), "returned": res.Returned, "mark": fmt.Sprintf("%#x", res.Mark),
+								"verdict_bits": fmt.Sprintf("%#x", got), "sentinel_reached": res.Mark&sentinel != 0, "logs": res.Logs, "trace": res.TraceString()},
+							"rendered": rs.Dump()}),
+							"%s v%d: rule %s; reference match=%v action=%s but rendered rules gave verdict=%s returned=%v verdictbits=%#x next-rule-reached=%v LOGs=%d for packet %s",
+							fl, ipv, rule.RuleId, want, act, res.Verdict, res.Returned, got, res.Mark&sentinel != 0, nLOG, p)
+						break
 					}
 				}
-				if bad != "" {
-					c.Violationf(bad+":"+fl, detail(map[string]any{
-						"ipVersion": ipv, "renderer": fl, "packet": p.String(), "initial_mark": fmt.Sprintf("%#x", pkt.Mark),
-						"reference_match": want, "action": act.String(),
-						"observed": map[string]any{"verdict": res.Verdict.String(), "returned": res.Returned, "mark": fmt.Sprintf("%#x", res.Mark),
-							"verdict_bits": fmt.Sprintf("%#x", got), "sentinel_reached": res.Mark&sentinel != 0, "logs": res.Logs, "trace": res.TraceString()},
-						"rendered": rs.Dump()}),
-						"%s v%d: rule %s; reference match=%v action=%s but rendered rules gave verdict=%s returned=%v verdictbits=%#x next-rule-reached=%v LOGs=%d for packet %s",
-						fl, ipv, rule.RuleId, want, act, res.Verdict, res.Returned, got, res.Mark&sentinel != 0, nLOG, p)
-					break
-				}
+				_ = calicoBits
 			}
-			_ = calicoBits
 		}
 	}
 	if nCrit > 0 && sawMatch && sawNonMatch {
@@ -556,7 +581,7 @@ func main() {
 		ID:    "C08",
 		Level: "exploration",
 		Rule: "one generated proto.Rule per case (all criteria of DESIGN 3.1, validator-respecting, aimed at IPv4 or IPv6), random mark-bit assignment, flow logs on/off, DROP/REJECT; " +
-			"rendered by both renderers for both IP versions; ~40 boundary packets for the aimed family (CIDR edges, port range ends +-1, set members and neighbours, protocol and others, ICMP type/code) and 8 of the other family; " +
+			"the same rule object rendered by both renderers for both IP versions in PRNG-chosen order and re-rendered once (input must stay unchanged; 15% mixed-family CIDR lists); ~40 boundary packets for the aimed family (CIDR edges, port range ends +-1, set members and neighbours, protocol and others, ICMP type/code) and 8 of the other family; " +
 			"non-trivial = the rule has at least one criterion and the packet set contained both a matching and a non-matching packet; distinct by the rule's bytes",
 		Assumptions: []string{
 			"internal/nfsim evaluates the rendered text with kernel semantics (calibrated by hand against nft 1.0.6 --debug=netlink for every clause shape Felix renders); it is the trusted interpreter",
